@@ -1007,9 +1007,31 @@ theorem PathW.toN_list {u : Url} (h : PathW st u) (ho : u.hasOpaquePath = false)
 
 /-! ### `NormP` and the four parts -/
 
-theorem normP_of_all {u : Url} (h : All idna true u) : NormP idna u := by
+/-- `NormP` with the two file-only clauses switched by `st` (`st = true`: `NormP`) -/
+structure NormPX (idna : Idna) (st : Bool) (u : Url) : Prop where
+  scheme : C02.schemeOk u.scheme = true
+  shape : ShapeP u
+  user : C02.userinfoOk u.username = true
+  pass : C02.userinfoOk u.password = true
+  host : ∀ h, u.host = some h →
+    hostTextOk u.isSpecial (st && u.isFile) h.text = true ∧ HostStable idna u.isSpecial h
+  port : portOk u.scheme u.port = true
+  segs : ∀ seg ∈ u.path, segOk u.isSpecial seg = true
+  drive : st = true → u.isFile = true → driveOk u.path = true
+  opq : u.hasOpaquePath = true →
+    opaqueOk u.opaquePath (u.query.isNone && u.fragment.isNone) = true
+  query : qOk u.isSpecial u.query = true
+  frag : fOk u.fragment = true
+
+theorem NormPX.ofNormP {u : Url} (h : NormP idna u) : NormPX idna true u :=
+  ⟨h.scheme, h.shape, h.user, h.pass, h.host, h.port, h.segs, fun _ => h.drive, h.opq, h.query, h.frag⟩
+
+theorem NormPX.toNormP {u : Url} (h : NormPX idna true u) : NormP idna u :=
+  ⟨h.scheme, h.shape, h.user, h.pass, h.host, h.port, h.segs, h.drive rfl, h.opq, h.query, h.frag⟩
+
+theorem normPX_of_all {u : Url} (h : All idna st u) : NormPX idna st u := by
   obtain ⟨ha, hp, hq, hf⟩ := h
-  refine ⟨ha.scheme, ⟨?_, ?_, ?_, ?_, ?_, ?_⟩, ha.user, ha.pass, ?_, ha.port, ?_, hp.drive rfl, ?_, hq, hf⟩
+  refine ⟨ha.scheme, ⟨?_, ?_, ?_, ?_, ?_, ?_⟩, ha.user, ha.pass, ?_, ha.port, ?_, hp.drive, ?_, hq, hf⟩
   · intro ho
     refine ⟨(hp.opq ho).1, (hp.opq ho).2.1, ?_⟩
     cases hs : u.isSpecial with
@@ -1032,9 +1054,12 @@ theorem normP_of_all {u : Url} (h : All idna true u) : NormP idna u := by
     obtain ⟨h1, h2⟩ := ha.host h hh
     refine ⟨?_, h2⟩
     rw [hostTextOk_eq, h1, Bool.true_and]
-    cases hf : u.isFile with
+    cases hst : st with
     | false => rfl
-    | true => simpa using ha.hostFile rfl hf h hh
+    | true =>
+      cases hf : u.isFile with
+      | false => rfl
+      | true => simpa using ha.hostFile hst hf h hh
   · intro seg hseg
     cases ho : u.hasOpaquePath with
     | true => rw [(hp.opq ho).2.1] at hseg; simp at hseg
@@ -1051,9 +1076,9 @@ theorem normP_of_all {u : Url} (h : All idna true u) : NormP idna u := by
       | some f => left; right; rfl
       | none => right; exact h5 hq' hf'
 
-theorem all_of_normP {u : Url} (h : NormP idna u) : All idna true u := by
+theorem all_of_normPX {u : Url} (h : NormPX idna st u) : All idna st u := by
   obtain ⟨s1, s2, s3, s4, s5, s6⟩ := h.shape
-  refine ⟨⟨h.scheme, h.port, ?_, ?_, ?_, h.user, h.pass, ?_, ?_⟩, ⟨?_, ?_, ?_, fun _ => h.drive⟩,
+  refine ⟨⟨h.scheme, h.port, ?_, ?_, ?_, h.user, h.pass, ?_, ?_⟩, ⟨?_, ?_, ?_, h.drive⟩,
     h.query, h.frag⟩
   · intro hs hf
     cases hh : u.host with
@@ -1073,9 +1098,9 @@ theorem all_of_normP {u : Url} (h : NormP idna u) : All idna true u := by
     obtain ⟨h1, h2⟩ := h.host x hx
     rw [hostTextOk_eq, Bool.and_eq_true] at h1
     exact ⟨h1.1, h2⟩
-  · intro _ hf x hx
+  · intro hst hf x hx
     obtain ⟨h1, _⟩ := h.host x hx
-    rw [hostTextOk_eq, Bool.and_eq_true, hf] at h1
+    rw [hostTextOk_eq, Bool.and_eq_true, hf, hst] at h1
     simpa using h1.2
   · intro hs
     refine ⟨?_, (s3 hs).2⟩
@@ -1094,6 +1119,9 @@ theorem all_of_normP {u : Url} (h : NormP idna u) : All idna true u := by
     · exact h
   · intro ho
     exact ⟨s2 ho, h.segs, fun hs hh => s6 hs hh ho⟩
+
+theorem normP_of_all {u : Url} (h : All idna true u) : NormP idna u := (normPX_of_all h).toNormP
+theorem all_of_normP {u : Url} (h : NormP idna u) : All idna true u := all_of_normPX (NormPX.ofNormP h)
 
 /-! ### fragment, query, opaque path -/
 
@@ -2418,6 +2446,360 @@ theorem parse_norm (hi : IdnaStable idna) (e : Enc) (units : List Nat) (base : O
     (h : parse idna e units base = some u) : NormP idna u :=
   normP_of_all (parse_all hi e units base (fun b hb => all_of_normP (hbase b hb)) u h)
 
+
+
+/-! ## Part E: setters -/
+
+/-- dropping the file-only clauses -/
+theorem All.weaken {u : Url} (h : All idna st u) : All idna false u :=
+  ⟨⟨h.1.scheme, h.1.port, h.1.spHost, h.1.noCred, h.1.fileHost, h.1.user, h.1.pass, h.1.host,
+      fun hc => by simp at hc⟩,
+    ⟨h.2.1.sp, h.2.1.opq, h.2.1.lst, fun hc => by simp at hc⟩, h.2.2.1, h.2.2.2⟩
+
+/-- adding them back -/
+theorem All.strengthen {u : Url} (h : All idna false u)
+    (hx : u.isFile = true → hostFileOk u.hostText = true ∧ driveOk u.path = true) : All idna true u :=
+  ⟨⟨h.1.scheme, h.1.port, h.1.spHost, h.1.noCred, h.1.fileHost, h.1.user, h.1.pass, h.1.host,
+      fun _ hf x hxx => by
+        have := (hx hf).1
+        simpa [Url.hostText, hxx] using this⟩,
+    ⟨h.2.1.sp, h.2.1.opq, h.2.1.lst, fun _ hf => (hx hf).2⟩, h.2.2.1, h.2.2.2⟩
+
+theorem All.fileClauses {u : Url} (h : All idna true u) (hf : u.isFile = true) :
+    hostFileOk u.hostText = true ∧ driveOk u.path = true := by
+  obtain ⟨x, hx⟩ := h.1.fileHost hf
+  refine ⟨?_, h.2.1.drive rfl hf⟩
+  have := h.1.hostFile rfl hf x hx
+  simpa [Url.hostText, hx] using this
+
+/-! ### `potentially strip trailing spaces from an opaque path` -/
+
+def strip (l : List Nat) : List Nat := (l.reverse.dropWhile (· == 0x20)).reverse
+
+theorem strip_prefix (l : List Nat) : strip l <+: l := by
+  refine ⟨(l.reverse.takeWhile (· == 0x20)).reverse, ?_⟩
+  unfold strip
+  rw [← List.reverse_append, List.takeWhile_append_dropWhile, List.reverse_reverse]
+
+theorem strip_last (l : List Nat) : (strip l).getLast? ≠ some 0x20 := by
+  unfold strip
+  rw [List.getLast?_reverse]
+  have := List.head?_dropWhile_not (· == 0x20) l.reverse
+  intro h
+  rw [h] at this
+  simp at this
+
+theorem norm_stripTrailingSpaces (u : Url) (ha : AuthN idna st u) (hp : PathW st u) (hq : QueryN u)
+    (hf : FragN u) : All idna st (stripTrailingSpaces u) := by
+  unfold stripTrailingSpaces
+  split
+  · rename_i hc
+    simp only [Bool.and_eq_true, Option.isNone_iff_eq_none] at hc
+    obtain ⟨⟨ho, hfn⟩, hqn⟩ := hc
+    obtain ⟨h1, h2, h3, h4, _⟩ := hp.opq ho
+    have hpre := strip_prefix u.opaquePath
+    refine ⟨ha.congr rfl rfl rfl rfl rfl, ⟨hp.sp, fun _ => ⟨h1, h2, ?_, ?_, fun _ _ => strip_last _⟩,
+      fun hc => by rw [show u.hasOpaquePath = false from hc] at ho; exact absurd ho (by simp),
+      hp.drive⟩, hq.congr rfl rfl, hf.congr rfl⟩
+    · intro c hc; exact h3 c (hpre.subset hc)
+    · show (strip u.opaquePath).head? ≠ some 0x2F
+      intro hh
+      apply h4
+      obtain ⟨r, hr⟩ := hpre
+      cases hs : strip u.opaquePath with
+      | nil => rw [hs] at hh; simp at hh
+      | cons a t =>
+        rw [hs] at hh hr
+        show u.opaquePath.head? = some 0x2F
+        rw [← hr]; simpa using hh
+  · rename_i hc
+    refine ⟨ha, ?_, hq, hf⟩
+    cases ho : u.hasOpaquePath with
+    | false => exact hp.toN_list ho
+    | true =>
+      refine hp.toN rfl rfl rfl rfl rfl ?_
+      simp only [ho, Bool.true_and, Bool.and_eq_true, Option.isNone_iff_eq_none, not_and] at hc
+      by_cases hfn : u.fragment = none
+      · exact Or.inl (hc hfn)
+      · exact Or.inr hfn
+
+/-! ### the setters other than `protocol` -/
+
+theorem canHave_iff {u : Url} :
+    canHaveUsernamePasswordPort u = true ↔ u.hostText ≠ [] ∧ u.isFile = false := by
+  simp [canHaveUsernamePasswordPort]
+
+theorem all_setUserinfo (u : Url) (h : All idna st u) (hc : canHaveUsernamePasswordPort u = true)
+    (un pw : List Nat) (hun : C02.userinfoOk un = true) (hpw : C02.userinfoOk pw = true) :
+    All idna st { u with username := un, password := pw } := by
+  obtain ⟨ha, hp, hq, hf⟩ := h
+  obtain ⟨hc1, hc2⟩ := canHave_iff.1 hc
+  refine ⟨⟨ha.scheme, ha.port, ha.spHost, ?_, ha.fileHost, hun, hpw, ha.host, ha.hostFile⟩,
+    hp.congr rfl rfl rfl rfl rfl (fun a b => ⟨a, b⟩), hq.congr rfl rfl, hf.congr rfl⟩
+  intro hh
+  rcases hh with hh | hh
+  · exact absurd hh hc1
+  · exact absurd (show u.isFile = true from hh) (by simp [hc2])
+
+theorem not_opaque_of_host {u : Url} (hp : PathN st u) (hh : u.hostText ≠ []) : u.hasOpaquePath = false := by
+  cases ho : u.hasOpaquePath with
+  | false => rfl
+  | true => exact absurd (hp.opq ho).1 (hostText_ne hh)
+
+theorem all_hostState_ov (hi : IdnaStable idna) (o : Override) (u : Url)
+    (h : All idna st u) (hno : u.hasOpaquePath = false) (p : List Nat) :
+    All idna st (hostState idna (some o) u p).url := by
+  obtain ⟨ha, hp, hq, hf⟩ := h
+  refine norm_hostState hi (some o) u p ?_ ?_ (Or.inl ⟨rfl, hp, hno⟩) hq hf (fun _ => ⟨ha, hp, hq, hf⟩)
+    (fun hn => by simp at hn) (Or.inl rfl)
+  · intro _ hfile
+    rcases good_fileHostState hi (some o) u p ha hfile (Or.inl ⟨rfl, hp, hno⟩) hq hf with hg | ⟨hg, _⟩
+    · exact hg
+    · simp at hg
+  · intro hnf
+    exact ⟨ha.scheme, ha.port, hnf, ha.user, ha.pass⟩
+
+theorem all_run_port (u : Url) (h : All idna st u)
+    (hc : canHaveUsernamePasswordPort u = true) (p : List Nat) :
+    All idna st (urlParse idna none (some .port) u p).url := by
+  obtain ⟨ha, hp, hq, hf⟩ := h
+  obtain ⟨hc1, hc2⟩ := canHave_iff.1 hc
+  unfold urlParse
+  exact norm_portState (some .port) u p ha hc1 hc2 (Or.inl ⟨rfl, hp, not_opaque_of_host hp hc1⟩) hq hf
+    (fun _ => ⟨ha, hp, hq, hf⟩) (Or.inl rfl)
+
+theorem all_run_pathStart (u : Url) (h : All idna st u) (ho : u.hasOpaquePath = false)
+    (p : List Nat) : All idna st (urlParse idna none (some .pathStart) { u with path := [] } p).url := by
+  obtain ⟨ha, hp, hq, hf⟩ := h
+  unfold urlParse
+  exact norm_pathStartState (some .pathStart) _ p (ha.congr rfl rfl rfl rfl rfl)
+    ⟨ho, (hp.lst ho).1, by simp, fun _ _ => rfl⟩ (hq.congr rfl rfl) (hf.congr rfl) (fun hn => by simp at hn)
+
+/-! ### the `protocol` setter keeps everything but the two file-only clauses -/
+
+theorem all_setScheme (u : Url) (h : All idna false u) (scheme : List Nat) (hs : C02.schemeOk scheme = true)
+    (h1 : (u.isSpecial != isSpecialScheme scheme) = false)
+    (h2 : (isFileScheme scheme && (u.hasCredentials || u.port.isSome)) = false)
+    (h3 : ¬ (u.isFile = true ∧ u.hostText = [])) :
+    All idna false (if (u.port.isSome && decide (defaultPort scheme = u.port)) = true
+      then ({ u with scheme := scheme, port := none } : Url) else { u with scheme := scheme }) := by
+  obtain ⟨ha, hp, hq, hf⟩ := h
+  have hsp : isSpecialScheme scheme = u.isSpecial := by
+    cases hx : u.isSpecial <;> cases hy : isSpecialScheme scheme <;> simp [hx, hy] at h1 ⊢
+  have hfile : isFileScheme scheme = true → u.username = [] ∧ u.password = [] ∧ u.port = none := by
+    intro hfs
+    simp only [hfs, Bool.true_and, Bool.or_eq_false_iff, Url.hasCredentials, decide_eq_false_iff_not,
+      ne_eq, Decidable.not_not] at h2
+    refine ⟨h2.1.1, h2.1.2, ?_⟩
+    cases hpt : u.port with
+    | none => rfl
+    | some x => rw [hpt] at h2; simp at h2
+  have hhost : isSpecialScheme scheme = true → ∃ h, u.host = some h ∧ h.text ≠ [] := by
+    intro hss
+    rw [hsp] at hss
+    cases huf : u.isFile with
+    | false => exact ha.spHost hss huf
+    | true =>
+      obtain ⟨h, hh⟩ := ha.fileHost huf
+      refine ⟨h, hh, fun ht => h3 ⟨huf, ?_⟩⟩
+      simp [Url.hostText, hh, ht]
+  -- the record with any admissible port
+  have key : ∀ po : Option Nat, portOk scheme po = true → (u.port = none → po = none) →
+      All idna false ({ u with scheme := scheme, port := po } : Url) := by
+    intro po hpo hpn
+    refine ⟨⟨hs, hpo, fun hss _ => hhost hss, ?_, fun hfs => ?_, ha.user, ha.pass, ?_,
+        fun hc => by simp at hc⟩,
+      ⟨fun hss => hp.sp (by rw [← hsp]; exact hss), hp.opq, ?_, fun hc => by simp at hc⟩, ?_, hf.congr rfl⟩
+    · intro hh
+      rcases hh with hh | hh
+      · obtain ⟨a, b, c⟩ := ha.noCred (Or.inl hh)
+        exact ⟨a, b, hpn c⟩
+      · obtain ⟨a, b, c⟩ := hfile hh
+        exact ⟨a, b, hpn c⟩
+    · obtain ⟨h, hh, _⟩ := hhost (C08.file_special hfs)
+      exact ⟨h, hh⟩
+    · intro x hx
+      show HostN idna (isSpecialScheme scheme) x
+      rw [hsp]; exact ha.host x hx
+    · intro ho
+      obtain ⟨a, b, c⟩ := hp.lst ho
+      refine ⟨a, ?_, ?_⟩
+      · intro seg hseg
+        show segOk (isSpecialScheme scheme) seg = true
+        rw [hsp]; exact b seg hseg
+      · intro hns
+        exact c (by rw [← hsp]; exact hns)
+    · show qOk (isSpecialScheme scheme) u.query = true
+      rw [hsp]; exact hq
+  split
+  · exact key none rfl (fun _ => rfl)
+  · rename_i hc
+    refine key u.port ?_ (fun h => h)
+    cases hpt : u.port with
+    | none => rfl
+    | some n =>
+      have hold := ha.port
+      rw [hpt] at hold
+      simp only [portOk, Bool.and_eq_true, decide_eq_true_eq, bne_iff_ne, ne_eq] at hold ⊢
+      refine ⟨hold.1, fun hd => hc ?_⟩
+      simp [hpt, hd]
+
+theorem all_schemeYes (u : Url) (h : All idna false u) (scheme : List Nat) (hs : C02.schemeOk scheme = true) :
+    All idna false (if (u.isSpecial != isSpecialScheme scheme) = true then (⟨.ignored, u⟩ : Res)
+      else if (isFileScheme scheme && (u.hasCredentials || u.port.isSome)) = true then ⟨.ignored, u⟩
+      else if (u.isFile && decide (u.hostText = [])) = true then ⟨.ignored, u⟩
+      else
+        ⟨.ok, if (u.port.isSome && decide (defaultPort scheme = u.port)) = true
+          then ({ u with scheme := scheme, port := none } : Url) else { u with scheme := scheme }⟩).url := by
+  split
+  · exact h
+  · rename_i h1
+    split
+    · exact h
+    · rename_i h2
+      split
+      · exact h
+      · rename_i h3
+        exact all_setScheme u h scheme hs (by simpa using h1) (by simpa using h2) (by simpa using h3)
+
+theorem all_schemeState_ov (u : Url) (h : All idna false u) (c0 : Nat) (r0 : List Nat)
+    (h0 : isAlpha c0 = true) :
+    All idna false (schemeState idna none (some .schemeStart) u (c0 :: r0)).url := by
+  have hs : C02.schemeOk ((c0 :: r0.takeWhile isSchemeChar).map (· ||| 0x20)) = true := by
+    rw [schemeOk_eq]
+    exact C08.scheme_lower_ok c0 _ h0 (fun c hc => (C08.mem_takeWhile hc).1)
+  unfold schemeState
+  dsimp only
+  generalize (c0 :: r0.takeWhile isSchemeChar).map (· ||| 0x20) = scheme at hs ⊢
+  cases hrest : List.dropWhile isSchemeChar r0 with
+  | nil =>
+    simp only [Option.isSome_some, if_true]
+    exact all_schemeYes u h scheme hs
+  | cons c tl =>
+    dsimp only
+    by_cases hc : (c == 0x3A) = true
+    · rw [if_pos hc]
+      simp only [Option.isSome_some, if_true]
+      exact all_schemeYes u h scheme hs
+    · rw [if_neg hc]
+      simp only [Option.isNone_some, Bool.false_eq_true, if_false]
+      exact h
+
+theorem all_run_schemeStart (u : Url) (h : All idna false u) (p : List Nat) :
+    All idna false (urlParse idna none (some .schemeStart) u p).url := by
+  unfold urlParse
+  cases p with
+  | nil => simp only [Option.isNone_some, Bool.false_eq_true, if_false]; exact h
+  | cons c r =>
+    dsimp only
+    split
+    · rename_i h0; exact all_schemeState_ov u h _ _ h0
+    · simp only [Option.isNone_some, Bool.false_eq_true, if_false]; exact h
+
+/-- every setter except `protocol` keeps all parts, with or without the file-only clauses (also when it
+    reports failure); `protocol` keeps all parts but the file-only clauses -/
+theorem set_all (hi : IdnaStable idna) (s : Setter) (e : Enc) (units : List Nat) (u : Url)
+    (h : All idna st u) (hs : s = .protocol → st = false) : All idna st (setValid idna s e units u).1 := by
+  obtain ⟨ha, hp, hq, hf⟩ := h
+  unfold setValid
+  cases s with
+  | href =>
+    dsimp only
+    cases hpr : parse idna e units none with
+    | none => exact ⟨ha, hp, hq, hf⟩
+    | some u' => exact parse_all hi e units none (fun b hb => by simp at hb) u' hpr
+  | protocol =>
+    have := hs rfl
+    subst this
+    exact all_run_schemeStart u ⟨ha, hp, hq, hf⟩ _
+  | username =>
+    dsimp only
+    split
+    · rename_i hc
+      exact all_setUserinfo u ⟨ha, hp, hq, hf⟩ hc _ _ (userinfo_fix _) ha.pass
+    · exact ⟨ha, hp, hq, hf⟩
+  | password =>
+    dsimp only
+    split
+    · rename_i hc
+      exact all_setUserinfo u ⟨ha, hp, hq, hf⟩ hc _ _ ha.user (userinfo_fix _)
+    · exact ⟨ha, hp, hq, hf⟩
+  | host =>
+    dsimp only
+    split
+    · rename_i ho
+      unfold urlParse
+      exact all_hostState_ov hi _ u ⟨ha, hp, hq, hf⟩ (by simpa using ho) _
+    · exact ⟨ha, hp, hq, hf⟩
+  | hostname =>
+    dsimp only
+    split
+    · rename_i ho
+      unfold urlParse
+      exact all_hostState_ov hi _ u ⟨ha, hp, hq, hf⟩ (by simpa using ho) _
+    · exact ⟨ha, hp, hq, hf⟩
+  | port =>
+    dsimp only
+    split
+    · rename_i hc
+      split
+      · exact ⟨ha.setPort_none, hp.congr rfl rfl rfl rfl rfl (fun a b => ⟨a, b⟩), hq.congr rfl rfl, hf.congr rfl⟩
+      · exact all_run_port u ⟨ha, hp, hq, hf⟩ hc _
+    · exact ⟨ha, hp, hq, hf⟩
+  | pathname =>
+    dsimp only
+    split
+    · rename_i ho
+      exact all_run_pathStart u ⟨ha, hp, hq, hf⟩ (by simpa using ho) _
+    · exact ⟨ha, hp, hq, hf⟩
+  | search =>
+    dsimp only
+    split
+    · exact norm_stripTrailingSpaces _ (ha.congr rfl rfl rfl rfl rfl) (hp.toW.congr rfl rfl rfl rfl rfl)
+        (queryN_none _ rfl) (hf.congr rfl)
+    · unfold urlParse
+      exact norm_queryState (some .query) u _ ha hp.toW hf
+  | hash =>
+    dsimp only
+    split
+    · exact norm_stripTrailingSpaces _ (ha.congr rfl rfl rfl rfl rfl) (hp.toW.congr rfl rfl rfl rfl rfl)
+        (hq.congr rfl rfl) (fragN_none _ rfl)
+    · unfold urlParse
+      exact norm_fragmentState u _ ha hp.toW hq
+
+/-! ### `url_search_params::update` -/
+
+theorem form_keeps : ∀ c, c < 128 → C15.isFormChar c = true →
+    specialQueryNoEnc c = true ∧ queryNoEnc c = true := by decide +kernel
+
+theorem update_all (o : UrlObj) (hu : ∀ u, o.url = some u → All idna st u)
+    (hsp : ∀ p, o.sp = some p → ∀ pr ∈ p.list, (∀ b ∈ pr.1, b < 256) ∧ (∀ b ∈ pr.2, b < 256)) :
+    ∀ u', o.update.url = some u' → All idna st u' := by
+  intro u' hu'
+  unfold UrlObj.update at hu'
+  split at hu'
+  · rename_i u p hou hop
+    obtain ⟨ha, hp, hq, hf⟩ := hu u hou
+    split at hu'
+    · simp only [Option.some.injEq] at hu'
+      subst hu'
+      exact norm_stripTrailingSpaces _ (ha.congr rfl rfl rfl rfl rfl) (hp.toW.congr rfl rfl rfl rfl rfl)
+        (queryN_none _ rfl) (hf.congr rfl)
+    · simp only [Option.some.injEq] at hu'
+      subst hu'
+      refine ⟨ha.congr rfl rfl rfl rfl rfl, hp.toW.toN rfl rfl rfl rfl rfl (Or.inl (by simp)), ?_, hf.congr rfl⟩
+      show queryOk u.isSpecial (formSerialize p.list) = true
+      rw [queryOk, List.all_eq_true]
+      intro c hc
+      have hfc := C15.serialize_alphabet p.list (hsp p hop) c hc
+      have hlt := C08.isFormChar_lt c hfc
+      obtain ⟨a, b⟩ := form_keeps c hlt hfc
+      simp only [keeps, Bool.and_eq_true, decide_eq_true_eq]
+      refine ⟨by omega, ?_⟩
+      cases u.isSpecial
+      · exact b
+      · exact a
+  · exact hu u' hu'
 
 /-! ## a sample IDNA function satisfying `IdnaStable` (for the non-vacuity examples) -/
 
